@@ -23,6 +23,16 @@ type scriptCase struct {
 	Version  uint32 `json:"tx_version,omitempty"`
 	LockTime uint32 `json:"tx_locktime,omitempty"`
 	Sequence uint32 `json:"tx_sequence,omitempty"`
+	// Shape of the spending transaction: 0 = 1 input / 1 output, 1 = 1 input / no output,
+	// 2 = 2 inputs (checked input last) / 1 output, 3 = 2 inputs (checked first) / 2 outputs
+	Shape int `json:"tx_shape,omitempty"`
+}
+
+func (c scriptCase) idx() int {
+	if c.Shape == 2 {
+		return 1
+	}
+	return 0
 }
 
 func (c scriptCase) ctx() (*txref.Tx, uint64) {
@@ -30,6 +40,16 @@ func (c scriptCase) ctx() (*txref.Tx, uint64) {
 	tx := scriptref.SpendingTx(c.Unlock, c.Lock, amount)
 	if c.Version != 0 || c.LockTime != 0 || c.Sequence != 0 {
 		tx.Version, tx.LockTime, tx.Ins[0].Seq = c.Version, c.LockTime, c.Sequence
+	}
+	other := txref.In{TxID: txid32(0x3c), Vout: 7, Seq: 0xfffffff0, Script: []byte{0x51}, PrevSats: 999, PrevScript: []byte{0x51}}
+	switch c.Shape {
+	case 1:
+		tx.Outs = nil
+	case 2:
+		tx.Ins = []txref.In{other, tx.Ins[0]}
+	case 3:
+		tx.Ins = append(tx.Ins, other)
+		tx.Outs = append(tx.Outs, txref.Out{Sats: 5, Script: []byte{0x52}})
 	}
 	return tx, amount
 }
@@ -121,15 +141,16 @@ func (r *recorder) AfterStackPop(s *interpreter.State, b []byte) {
 func libRun(c scriptCase, dbg interpreter.Debugger) (err error, unlockAfter, lockAfter []byte, txBefore, txAfter []byte) {
 	rt, amount := c.ctx()
 	tx := toLib(rt)
-	tx.Inputs[0].PreviousTxScript = nil
-	tx.Inputs[0].PreviousTxSatoshis = 0
+	ix := c.idx()
+	tx.Inputs[ix].PreviousTxScript = nil
+	tx.Inputs[ix].PreviousTxSatoshis = 0
 	// caller-owned buffers
 	lockBuf := append([]byte(nil), c.Lock...)
 	unlockBuf := append([]byte(nil), c.Unlock...)
-	tx.Inputs[0].UnlockingScript = libScriptNoCopy(unlockBuf)
+	tx.Inputs[ix].UnlockingScript = libScriptNoCopy(unlockBuf)
 	prev := &bt.Output{Satoshis: amount, LockingScript: libScriptNoCopy(lockBuf)}
 	txBefore = tx.Bytes()
-	opts := []interpreter.ExecutionOptionFunc{interpreter.WithTx(tx, 0, prev), interpreter.WithFlags(scriptflag.Flag(c.Flags))}
+	opts := []interpreter.ExecutionOptionFunc{interpreter.WithTx(tx, ix, prev), interpreter.WithFlags(scriptflag.Flag(c.Flags))}
 	if dbg != nil {
 		opts = append(opts, interpreter.WithDebugger(dbg))
 	}
@@ -203,7 +224,7 @@ type lockstepResult struct {
 // tracing on the same case and compares the verdict and every common snapshot.
 func lockstep(c scriptCase, sig scriptref.SigCheck) (lr lockstepResult) {
 	rt, amount := c.ctx()
-	ref := scriptref.Verify(c.Unlock, c.Lock, c.Flags, &scriptref.TxCtx{Tx: rt, Idx: 0, Amount: amount}, sig, true)
+	ref := scriptref.Verify(c.Unlock, c.Lock, c.Flags, &scriptref.TxCtx{Tx: rt, Idx: c.idx(), Amount: amount}, sig, true)
 	lr.ref = ref
 	if (ref.UsedSig && sig == nil) || ref.TooBig {
 		lr.skipped = true
